@@ -87,6 +87,13 @@ def main():
         for extra in ([] if same else sorted(os.listdir(src))):
             if extra not in ("patch.diff", "demo.sh", "notes.md") and os.path.getsize(os.path.join(src, extra)) < 200000 and os.path.isfile(os.path.join(src, extra)):
                 shutil.copy(os.path.join(src, extra), os.path.join(out, extra))
+        try:
+            desc = json.load(open(os.path.join(VERIF, "seeded", "descriptions.json"))).get(sid, {})
+            meta.update({k: v for k, v in desc.items()})
+        except Exception:
+            pass
+        meta["what_was_run"] = ("tools/eval_mutant.py: scratch worktree of /repo HEAD + patch.diff; pinned suite (cargo test --workspace, default features); "
+                                "alpha build via tools/build.sh; demo.sh against the patched and the unpatched binary; ./check <property> --tier quick with VERIF_REPO pointing at the worktree")
         mp = os.path.join(out, "meta.json")
         if os.path.exists(mp):
             try:
